@@ -162,13 +162,14 @@ def build_object(d, cls, v, rng):
             from dendropy.datamodel.charmatrixmodel import CharacterType
             ct = CharacterType(label="col0", state_alphabet=getattr(m, "default_state_alphabet", None))
             m.character_types.append(ct)
-            seq = m[taxa[0]]
+            # (first, in map order) by the cells of a sequence without cell-level annotations ...
+            seq0 = m[taxa[0]]
+            for j in range(len(seq0)):
+                seq0.set_character_type_at(j, ct)
+            # ... and by one cell of a sequence that has a cell-level annotation
+            seq = m[taxa[1]]
             seq.set_character_type_at(0, ct)
             seq.annotations_at(0).add_new("cellnote", 5)
-            # ... and by the cells of a sequence without cell-level annotations
-            seq1 = m[taxa[1]]
-            for j in range(len(seq1)):
-                seq1.set_character_type_at(j, ct)
         if v.get("extra"):
             m.meta = {"k": [1]}
         return m
